@@ -2,7 +2,23 @@ package otr3
 
 // Receive handles a message from a peer. It returns a human readable message and zero or more messages to send back to the peer.
 func (c *Conversation) Receive(m ValidMessage) (plain MessagePlaintext, toSend []ValidMessage, err error) {
-	return c.receiveUnit(m, true)
+	theirInstanceTagBefore := c.theirInstanceTag
+
+	plain, toSend, err = c.receiveUnit(m, true)
+
+	// The instance tag of the peer is taken from the header of a message, before
+	// the rest of the message has been looked at. If the message then turns out
+	// to be rejected or ignored it must not have told us whom we are talking to:
+	// otherwise one stray message of another client makes us ignore the real peer.
+	if theirInstanceTagBefore == 0 && c.theirInstanceTag != 0 && (err != nil || (plain == nil && len(toSend) == 0)) {
+		// (a fragment that has been taken into the message being collected is
+		// not ignored, although nothing comes out of it yet)
+		if !(guessMessageType(m) == msgGuessFragment && err == nil && c.fragmentationContext.currentIndex > 0) {
+			c.theirInstanceTag = 0
+		}
+	}
+
+	return
 }
 
 // Receive handles a message from a peer. It returns a human readable message and zero or more messages to send back to the peer.
